@@ -37,18 +37,26 @@ class ProbeError(Exception):
         return f"[{self.code}] {self.text}"
 
 
-EXC = {
-    "ValueError": ValueError,
-    "KeyError": KeyError,
-    "RuntimeError": RuntimeError,
-    "ZeroDivisionError": ZeroDivisionError,
-    "OSError": OSError,
-    "AssertionError": AssertionError,
-    "MemoryError": MemoryError,
-    "StopIteration": StopIteration,
-    "TypeError": TypeError,
-    "ProbeError": ProbeError,
-}
+def _builtin_exception_classes() -> dict:
+    """Every built-in Exception subclass that can be raised with a single message argument."""
+    import builtins
+
+    out = {}
+    for name in sorted(dir(builtins)):
+        obj = getattr(builtins, name)
+        if isinstance(obj, type) and issubclass(obj, Exception) and not issubclass(obj, (Warning,)) and name not in ("ExceptionGroup", "BaseExceptionGroup"):
+            try:
+                obj("probe")
+            except Exception:  # noqa: BLE001 - needs structured arguments (UnicodeDecodeError ...)
+                continue
+            if obj.__name__ == name:  # skip aliases (IOError, EnvironmentError are OSError)
+                out[name] = obj
+    out["UserWarning"] = UserWarning
+    return out
+
+
+EXC = _builtin_exception_classes()
+EXC["ProbeError"] = ProbeError
 
 
 def reset() -> None:
